@@ -1270,23 +1270,37 @@ class MultipartWriter(Payload):
     def size(self) -> int | None:
         """Size of the payload."""
         total = 0
+        unknown = False
         for part, _e, _te in self._parts:
             encoding, te_encoding = self._part_encodings(part)
             part_size = part.size
+            # Serialized for every part, also after one of unknown size: a
+            # header that cannot be sent is refused before the message starts.
+            headers_len = len(part._binary_headers)
             if encoding or te_encoding or part_size is None:
-                return None
+                unknown = True
+                continue
 
             total += int(
                 2
                 + len(self._boundary)
                 + 2
                 + part_size  # b'--'+self._boundary+b'\r\n'
-                + len(part._binary_headers)
+                + headers_len
                 + 2  # b'\r\n'
             )
 
+        if unknown:
+            return None
         total += 2 + len(self._boundary) + 4  # b'--'+self._boundary+b'--\r\n'
         return total
+
+    def _check_part_headers(self) -> None:
+        """Raise ValueError for a forbidden character in a header of any part."""
+        for part, _e, _te in self._parts:
+            _ = part._binary_headers  # the serialization is the check
+            if isinstance(part, MultipartWriter):
+                part._check_part_headers()
 
     def decode(self, encoding: str = "utf-8", errors: str = "strict") -> str:
         """Return string representation of the multipart data.
@@ -1345,6 +1359,8 @@ class MultipartWriter(Payload):
         self, writer: AbstractStreamWriter, close_boundary: bool = True
     ) -> None:
         """Write body."""
+        # No part is written if the headers of a later one cannot be sent
+        self._check_part_headers()
         for part, _e, _te in self._parts:
             encoding, te_encoding = self._part_encodings(part)
             if self._is_form_data:
